@@ -232,7 +232,7 @@ Lemma browse_cases fs hide pages confs m req ae archive :
              u = (match req with [] => [SLASH] | _ => req end) /\ ends_with_slash u = false /\
              exists d, fs_open fs req = Some d /\ n_dir d = true) \/
   (out = Listing (filter (fun k => negb (is_hidden fs hide k)) (children fs (jail req))) /\ archive = []) \/
-  (out = Archive (descendants fs (jail req)) /\ archive <> []).
+  (out = Archive (archive_members fs hide (jail req)) /\ archive <> []).
 Proof.
   unfold browse. cbv zeta.
   destruct (find _ confs) as [bc|]; [|left; reflexivity].
@@ -283,9 +283,35 @@ Proof.
          end.
 Qed.
 
+(* what the archive walker keeps: descendants that are not hidden and do not lie below a hidden
+   directory (itself below the archived one) *)
+Lemma archive_members_in fs hide d k :
+  In k (archive_members fs hide d) ->
+  In k fs /\ is_desc d (n_path k) = true /\ is_hidden fs hide k = false /\
+  (forall a, In a fs -> n_dir a = true -> is_desc d (n_path a) = true ->
+             is_desc (n_path a) (n_path k) = true -> is_hidden fs hide a = false).
+Proof.
+  unfold archive_members, descendants. intros H.
+  apply filter_In in H as [H Ha]. apply filter_In in H as [Hin Hd].
+  unfold archived in Ha. apply negb_true_iff in Ha.
+  assert (Hcut : forall a, In a fs -> cut_by fs hide d k a = false).
+  { intros a Hain. destruct (cut_by fs hide d k a) eqn:E; [|reflexivity].
+    assert (X : existsb (cut_by fs hide d k) fs = true) by (apply existsb_exists; exists a; auto).
+    congruence. }
+  split; [exact Hin|]. split; [exact Hd|]. split.
+  - pose proof (Hcut k Hin) as C. unfold cut_by in C. rewrite Hd, beq_refl in C.
+    cbn [orb] in C. rewrite !andb_true_r in C. exact C.
+  - intros a Hain Hdir Hda Hak. pose proof (Hcut a Hain) as C. unfold cut_by in C.
+    rewrite Hda, Hdir, Hak in C. cbn [andb] in C. rewrite orb_true_r in C.
+    rewrite !andb_true_r in C. exact C.
+Qed.
+
 Lemma archive_sound fs hide pages confs m req ae archive ms :
   browse fs hide pages confs m req ae archive = Archive ms ->
-  forall k, In k ms -> In k fs /\ is_desc (jail req) (n_path k) = true.
+  forall k, In k ms ->
+    In k fs /\ is_desc (jail req) (n_path k) = true /\ is_hidden fs hide k = false /\
+    (forall a, In a fs -> n_dir a = true -> is_desc (jail req) (n_path a) = true ->
+               is_desc (n_path a) (n_path k) = true -> is_hidden fs hide a = false).
 Proof.
   intros H k Hk.
   pose proof (browse_cases fs hide pages confs m req ae archive) as C. cbv zeta in C. rewrite H in C.
@@ -295,7 +321,7 @@ Proof.
   - discriminate.
   - destruct C as (u & C & _). discriminate.
   - destruct C as [C _]. discriminate.
-  - destruct C as [C _]. injection C as ->. apply filter_In in Hk. exact Hk.
+  - destruct C as [C _]. injection C as ->. apply archive_members_in. exact Hk.
 Qed.
 
 Lemma is_desc_prefix d p : is_desc d p = true -> has_prefix p d = true.
@@ -667,8 +693,19 @@ Lemma archive_inside_root fs hide pages confs m req ae archive ms :
     In k fs /\ is_desc (jail req) (n_path k) = true /\ has_prefix (n_path k) (jail req) = true.
 Proof.
   intros H k Hk.
-  destruct (archive_sound _ _ _ _ _ _ _ _ _ H k Hk) as [Hin Hd].
+  destruct (archive_sound _ _ _ _ _ _ _ _ _ H k Hk) as (Hin & Hd & _).
   split; [exact Hin|]. split; [exact Hd|]. apply is_desc_prefix. exact Hd.
+Qed.
+
+Lemma archive_never_hidden fs hide pages confs m req ae archive ms :
+  browse fs hide pages confs m req ae archive = Archive ms ->
+  forall k, In k ms ->
+    is_hidden fs hide k = false /\
+    (forall a, In a fs -> n_dir a = true -> is_desc (jail req) (n_path a) = true ->
+               is_desc (n_path a) (n_path k) = true -> is_hidden fs hide a = false).
+Proof.
+  intros H k Hk.
+  destruct (archive_sound _ _ _ _ _ _ _ _ _ H k Hk) as (_ & _ & Hh & Ha). auto.
 Qed.
 
 (* ---- the whole site: internal -> browse -> static ---- *)
@@ -712,7 +749,8 @@ Lemma site_sound (s : site) (r : request) :
                              is_hidden (s_fs s) (s_hide s) k = false
   | Archive ms =>
       forall k, In k ms -> In k (s_fs s) /\ is_desc (jail (q_path r)) (n_path k) = true /\
-                           has_prefix (n_path k) (jail (q_path r)) = true
+                           has_prefix (n_path k) (jail (q_path r)) = true /\
+                           is_hidden (s_fs s) (s_hide s) k = false
   | Redirect code loc =>
       rooted (q_path r) -> one_slash loc = true /\ same_origin loc = true
   | Status _ => True
@@ -725,19 +763,7 @@ Proof.
     destruct (serve_file_serve _ _ _ _ _ _ _ _ _ E) as (Hm & Hin & Hs & Hn & Hh).
     repeat split; auto.
   - intros k Hk. eapply listing_sound; eassumption.
-  - intros k Hk. eapply archive_inside_root; eassumption.
-Qed.
-
-(* refutation witnesses (the fixture tree the harness serves) *)
-Local Open Scope string_scope.
-Lemma archive_never_hidden_refuted :
-  exists fs hide pages confs req archive ms k,
-  browse fs hide pages confs 0 req [] archive = Archive ms /\ In k ms /\
-  n_dir k = false /\ is_hidden fs hide k = true.
-Proof.
-  exists fixture_fs, gen_c02_hide, gen_default_index_pages,
-         [{| b_scope := [SLASH]; b_types := gen_archive_types |}], [SLASH], (bs "zip").
-  eexists. exists {| n_path := bs "/Casketfile"; n_dir := false; n_id := 12 |}.
-  split; [vm_compute; reflexivity|]. split; [|split; vm_compute; reflexivity].
-  vm_compute. repeat (first [left; reflexivity | right]).
+  - intros k Hk.
+    destruct (archive_inside_root _ _ _ _ _ _ _ _ _ E k Hk) as (H1 & H2 & H3).
+    destruct (archive_never_hidden _ _ _ _ _ _ _ _ _ E k Hk) as (H4 & _). auto.
 Qed.
